@@ -22,7 +22,7 @@ THEOREMS = [
     "SC.applyOp_total", "SC.applyOps_total", "SC.commitA_never_panics", "SC.no_panic_partial",
     # refutations of the unrestricted statements, by evaluation of schedules taken from the
     # implementation
-    "SC.drop_vs_insert_witness", "SC.create_create_regression",
+    "SC.drop_vs_insert_regression", "SC.create_create_regression",
     # regression inputs of defects fixed in /repo 6efcfe7, 504f23d, 25ba285
     "SC.drop_vs_compaction_regression", "SC.drop_dv_vs_compaction_regression", "SC.drop_drop_regression",
     # no modelled panic site is reachable any more
